@@ -47,6 +47,8 @@ fn drop_file(c: &Case, ix: usize) -> Case {
     n.files.remove(ix);
     n.path_args.retain(|a| *a != path);
     n.faults.retain(|f| f.target != path);
+    n.hardlinks.retain(|(a, t)| *a != path && *t != path);
+    n.symlinks.retain(|p| *p != path);
     n.chunking.retain(|f| f.target != path);
     // shrink the group that contained the file
     let mut at = 0;
@@ -235,7 +237,7 @@ pub fn minimize(case: &Case, finding: &Finding, budget: usize) -> (Case, Finding
     }
 
     // 4b. name the files explicitly instead of through path discovery
-    if m.best.path_form != PathForm::Explicit {
+    if m.best.path_form != PathForm::Explicit && m.best.hardlinks.is_empty() {
         let mut c = m.best.clone();
         c.path_form = PathForm::Explicit;
         c.path_args.clear();
